@@ -63,3 +63,5 @@ MANIFEST = {
              "handed out for empty WebSocket payloads; corrupts mempool.NewAligned's pool). Trusted: Coq kernel, extraction, OCaml driver, Go harness.",
         design="4/C11, Appendix C, D"),
 }
+
+READY = True
